@@ -99,3 +99,72 @@ def natural_scales(md, prim):
         a = np.abs(prim[1]) + c
     r = prim[0]
     return [np.max(r * a) + 0 * a, np.max(r * a * a) + 0 * a, np.max(r * a ** 3) + 0 * a]
+
+
+def amplification(make_solver, f, qsc, cfl, nsteps, directives=None, rel=1e-7):
+    """growth factor of a small perturbation over the same run (see C03): a linearly unstable scheme amplifies round-off
+    differences between two mathematically equivalent runs by about this factor.  inf if the perturbed run blows up."""
+    g = f.copy()
+    n = g.data[0].shape[-1]
+    pat = np.sin(1.0 + 2.3 * np.arange(n)) + 0.3
+    for k, d in enumerate(g.data):
+        sc = qsc[min(k, len(qsc) - 1)]
+        if d.ndim == 2:
+            d += rel * sc * np.vstack([pat, -pat])
+        else:
+            d += rel * sc * pat * (1.0 if k != 1 else -1.0)
+    try:
+        r = make_solver().solve(g, cfl, stop={"maxit": nsteps}, directives=directives or {})[-1]
+        r0 = make_solver().solve(f, cfl, stop={"maxit": nsteps}, directives=directives or {})[-1]
+    except Exception:
+        return float("inf")
+    amp = 0.0
+    for k, (d1, d0) in enumerate(zip(r.data, r0.data)):
+        e = float(np.max(np.abs(np.asarray(d1) - np.asarray(d0)))) / (rel * qsc[min(k, len(qsc) - 1)])
+        if e != e:
+            return float("inf")
+        amp = max(amp, e)
+    return amp
+
+
+def state_scales(md, prim):
+    """natural magnitude of each conservative variable: flux scale / wave speed"""
+    sc = natural_scales(md, prim)
+    name = md["name"]
+    if name == "convection":
+        a = abs(md["a"])
+    elif name == "burgers":
+        a = float(np.max(np.abs(prim[0]))) + 1e-300
+    elif name == "shallowwater":
+        a = float(np.max(np.abs(prim[1]) + np.sqrt(md.get("g", 9.81) * prim[0])))
+    else:
+        c = np.sqrt(md.get("gamma", 1.4) * prim[2] / prim[0])
+        v = np.sqrt(prim[1][0] ** 2 + prim[1][1] ** 2) if name == "euler2d" else np.abs(prim[1])
+        a = float(np.max(v + c))
+    return [float(np.max(x)) / a for x in sc], a
+
+
+class TieWatch(object):
+    """Burgers only: the upwind flux is discontinuous exactly at a sonic-expansion tie (uL = -uR < 0 at a face, flux 0 at the tie
+    and uL^2/2 on either side).  Two mathematically equivalent runs that differ by round-off can then differ by O(1).  This wrapper
+    records whether any operator evaluation saw face states within 1e-9 of such a tie, so metamorphic checks can skip the history."""
+
+    def __init__(self, disc):
+        self.disc = disc
+        self.hit = False
+        self._orig = disc.rhs
+        disc.rhs = self._rhs
+
+    def _rhs(self, field):
+        out = self._orig(field)
+        l, r = np.asarray(self.disc.pL[0], dtype=float), np.asarray(self.disc.pR[0], dtype=float)
+        m = max(float(np.max(np.abs(l))), float(np.max(np.abs(r)))) + 1e-300
+        if np.any((l < 0) & (r > 0) & (np.abs(l + r) <= 1e-9 * m)):
+            self.hit = True
+        return out
+
+    def release(self):
+        try:
+            del self.disc.rhs
+        except AttributeError:
+            pass
